@@ -64,6 +64,7 @@ let item_str (it : rx_item) : string =
   match it with
   | Delivered m -> "d " ^ hex m.m_raw
   | Dropped -> "badcrc"
+  | Malformed -> "malformed"
   | Faulted _ -> "fault"
 
 let mode_flow () =
@@ -108,6 +109,7 @@ let mode_rx () =
         List.iter (fun it -> match it with
           | Delivered m -> if int_of_n m.m_type <> 0x8e then q := m.m_raw :: !q
           | Dropped -> ()
+          | Malformed -> ()
           | Faulted _ -> if not !faulted then (faulted := true; out "model-fault")) items
     | "quiesce" :: _ -> ()
     | "drain" :: _ -> List.iter (fun m -> out ("q " ^ hex m)) (List.rev !q); q := []; out "q none"
